@@ -38,9 +38,14 @@ Record upkt := mk_upkt { u_seq : N; u_ts : N; u_body : bytes; u_pos : N }.
 (* an emitted base.AvPacket: (Timestamp, Payload) *)
 Definition avout := (N * bytes)%type.
 
-(* hevc.NaluTypeMapping: the types lal treats as a single NAL unit packet *)
-Definition hevc_type_known (t : N) : bool :=
+(* the types lal treats as a single NAL unit packet: every type below 48
+   (RFC 7798 4.4.1; C07 fix, lal b865944).  Before: the keys of
+   hevc.NaluTypeMapping only, so that filler data (38), end of sequence (36),
+   end of bit stream (37) and the reserved types got no position and blocked
+   the queue (Properties/C07.v c07_hevc_filler_pinned_refuted). *)
+Definition hevc_type_known_pinned (t : N) : bool :=
   (t <=? 9) || ((16 <=? t) && (t <=? 23)) || ((32 <=? t) && (t <=? 35)) || (t =? 39) || (t =? 40).
+Definition hevc_type_known (t : N) : bool := t <? 48.
 
 Definition fu_pos_of (fuhdr : N) : N :=
   if negb (N.land fuhdr 128 =? 0) then pos_fu_start
@@ -91,10 +96,14 @@ Definition calc_position (pr : proto) (b : bytes) : res N :=
   | _ => Ok pos_unknown
   end.
 
-(* Header.Timestamp / uint32(clockRate/1000) *)
+(* int64(uint64(Header.Timestamp) * 1000 / uint64(clockRate))  -- after the C07
+   fix (lal 186fc1c); before it: Header.Timestamp / uint32(clockRate/1000),
+   which used 44 for 44100 Hz (DESIGN F-24, Properties/C07.v c07_ts_drift_pinned_refuted).
+   The clock rate is a non-negative int here, timestamps are below 2^32, so the
+   uint64 product does not wrap. *)
+Definition rtp_ms (rate ts : N) : N := ts * 1000 / rate.
 Definition out_ts (site : N) (rate ts : N) : res N :=
-  let d := u32 (rate / 1000) in
-  if d =? 0 then Panic site else Ok (ts / d).
+  if rate =? 0 then Panic site else Ok (rtp_ms rate ts).
 
 (* AVCC framing of one NAL: 4-byte big-endian length (uint32 truncation) *)
 Definition avcc (nal : bytes) : bytes := be_put 4 (u32 (lenN nal)) ++ nal.
